@@ -191,6 +191,12 @@ def run_search(stats, name, strategy, n, seed, tier):
         stats.violations.append((last["case"], last["detail"], last["fid"]))
     except hypothesis.errors.HypothesisException as err:
         raise HarnessError("hypothesis failed in search {}: {!r}".format(name, err))
+    except Exception:
+        # an internal error of the shrinker must not hide a violation that was already found
+        if "case" not in last:
+            raise
+        del stats.violations[before:]
+        stats.violations.append((last["case"], last["detail"], last["fid"]))
 
 
 def _worker(args):
